@@ -119,34 +119,46 @@ def _deletion_predicate(su):
     from engine import strsym
     tree = ast.parse(textwrap.dedent(inspect.getsource(su.delete_tables_with_prefix)))
     fdef = tree.body[0]
-    like_ok = False
+    op = None          # LIKE | GLOB
+    suffix = None      # literal text appended to the prefix in the pattern, e.g. "%" or "_*"
     filt = None
     row_var = None
     for node in ast.walk(fdef):
         if isinstance(node, ast.Call) and node.args and isinstance(node.args[0], ast.Constant) and isinstance(node.args[0].value, str) \
-                and "LIKE ?" in node.args[0].value and "sqlite_master" in node.args[0].value:
+                and "sqlite_master" in node.args[0].value and len(node.args) > 1:
+            sql = node.args[0].value
             par = node.args[1]
+            if "name LIKE ?" in sql:
+                op = "LIKE"
+            elif "name GLOB ?" in sql:
+                op = "GLOB"
             if isinstance(par, ast.Tuple) and len(par.elts) == 1 and isinstance(par.elts[0], ast.JoinedStr):
                 js = par.elts[0].values
                 if len(js) == 2 and isinstance(js[0], ast.FormattedValue) and isinstance(js[0].value, ast.Name) and js[0].value.id == "prefix" \
-                        and isinstance(js[1], ast.Constant) and js[1].value == "%":
-                    like_ok = True
+                        and isinstance(js[1], ast.Constant) and isinstance(js[1].value, str):
+                    suffix = js[1].value
         if isinstance(node, ast.Assign) and len(node.targets) == 1 and isinstance(node.targets[0], ast.Name) and node.targets[0].id == "tables" \
                 and isinstance(node.value, ast.ListComp):
             comp = node.value.generators[0]
             if isinstance(comp.target, ast.Name) and isinstance(node.value.elt, ast.Subscript):
                 row_var = comp.target.id
                 filt = comp.ifs
-    if not like_ok or filt is None:
-        raise strsym.Unsupported("delete_tables_with_prefix no longer has the recognised shape (LIKE '<prefix>%' + list comprehension)")
+    many = {"LIKE": "%", "GLOB": "*"}.get(op)
+    if op is None or suffix is None or filt is None or not suffix.endswith(many) or many in suffix[:-1]:
+        raise strsym.Unsupported("delete_tables_with_prefix no longer has a recognised shape (name LIKE|GLOB '<prefix><literal><wildcard>' + list comprehension)")
+    lit = suffix[:-1]
 
     def fold(c):
         return z3.If(z3.And(c >= 65, c <= 90), c + 32, c)
 
     def pred(name, prefix):
-        if len(name) < len(prefix):
+        pat = (prefix + lit).chars
+        if len(name) < len(pat):
             return z3.BoolVal(False)
-        like = z3.And(*[z3.Or(p == 95, fold(p) == fold(t)) for p, t in zip(prefix.chars, name.chars)])
+        if op == "LIKE":     # '_' matches any single character, ASCII case-insensitive
+            like = z3.And(*[z3.Or(p == 95, fold(p) == fold(t)) for p, t in zip(pat, name.chars)])
+        else:                # GLOB: '?' matches any single character, case-sensitive (prefix characters are [A-Za-z0-9_])
+            like = z3.And(*[z3.Or(p == 63, p == t) for p, t in zip(pat, name.chars)])
 
         def sval(e):
             if isinstance(e, ast.Subscript) and isinstance(e.value, ast.Name) and e.value.id == row_var and not isinstance(e.slice, ast.Slice):
@@ -186,7 +198,7 @@ def _deletion_predicate(su):
                 return isin if isinstance(e.ops[0], ast.In) else z3.Not(isin)
             raise strsym.Unsupported("filter condition " + ast.dump(e)[:80])
 
-        return z3.And(like, *[bval(c) for c in filt])
+        return z3.And(like, *[bval(c) for c in filt]) if filt else like
     return pred
 
 
@@ -240,7 +252,7 @@ def _purge_reach(ctx: Ctx) -> None:
     ctx.evaluations += queries
     ctx.extra["purge_reach_queries"] = queries
     ctx.extra["purge_reach_wall_s"] = round(time.time() - t0, 1)
-    ctx.functions_encoded.append("pynenc.util.sqlite_utils.delete_tables_with_prefix (LIKE '<prefix>%' with '_' wildcard + ASCII case folding, plus the Python-side filter read from the source)")
+    ctx.functions_encoded.append("pynenc.util.sqlite_utils.delete_tables_with_prefix (table selection pattern LIKE/GLOB read from the source incl. wildcard and case semantics, plus the Python-side filter if any)")
     if not found:
         ctx.oblige("purge-reach", True, f"unsat for all |A| <= 3, |B| <= 26 ({queries} queries): no table of another app is emptied (no-hash-collision assumption)")
         ctx.nontrivial.add("purge-reach")
